@@ -17,51 +17,7 @@ POOL = [["undef"], ["i", 0], ["s", ""], ["none"], ["b", False], ["t", []], ["i",
 MFUNS = ['succ', ['const', ["i", 7]], 'delete', 'reject', 'reject_falsy', 'delete_truthy']
 
 
-def dec(j):
-    """JSON value -> Python value"""
-    t = j[0]
-    if t == 'undef':
-        return edzed.UNDEF
-    if t == 'none':
-        return None
-    if t in ('b', 'i', 's'):
-        return j[1]
-    if t == 'f':
-        return float(Fraction(j[1]))
-    if t == 't':
-        return tuple(j[1])
-    raise ValueError(j)
-
-
-def enc(v):
-    if v is edzed.UNDEF:
-        return ["undef"]
-    if v is None:
-        return ["none"]
-    if isinstance(v, bool):
-        return ["b", v]
-    if isinstance(v, int):
-        return ["i", v]
-    if isinstance(v, float):
-        f = Fraction(*v.as_integer_ratio())
-        return ["f", f"{f.numerator}/{f.denominator}"]
-    if isinstance(v, str):
-        return ["s", v]
-    if isinstance(v, tuple) and all(isinstance(i, int) and not isinstance(i, bool) for i in v):
-        return ["t", list(v)]
-    return ["other", repr(v)]
-
-
-def cj(j):
-    """JSON value -> Coq val"""
-    t = j[0]
-    if t == 'other':
-        raise common.Unrepresentable(j[1])
-    return cval(dec(j))
-
-
-def cjdata(d: dict) -> str:
-    return clist(sorted(d.items()), lambda kv: cpair(cstr(kv[0]), cj(kv[1])))
+from .vals import dec, enc, cj, cjdata
 
 
 def mk_mfun(f):
